@@ -340,6 +340,10 @@ def witness_to_replay(k, wit):
         return f"b_access_r{recv}_a{acc}", [g("cols"), g("rows"), stride, col, row]
     if r[0] == "b_view":
         return f"b_view_{0 if r[1] == 'owned' else 1}", [g("cols"), g("rows"), g("stride", g("cols")), g("start_c"), g("start_r"), g("end_c"), g("end_r")]
+    if r[0] == "b_unchecked":
+        recv = recv_i[r[1]]
+        acc = (6 if r[2] == "cell" else 7) + (2 if r[3] else 0)
+        return f"b_access_r{recv}_a{acc}", [g("cols"), g("rows"), g("stride", g("cols")), g("col"), g("row")]
     if r[0] == "b_swap_rows":
         return f"b_swap_rows_{0 if r[1] == 'owned' else 1}", [g("cols"), g("rows"), g("stride", g("cols")), g("r1"), g("r2")]
     if r[0] == "b_cursor":
